@@ -90,9 +90,18 @@ public:
     const col_range_type& cols() const { return my_cols; }
 
 private:
+    //! True if dimension 'second' is to be cut in preference to 'first'.
+    /** An indivisible dimension is never preferred: the products below are inexact once
+        size*grainsize >= 2^53 and may then compare as a tie. */
+    template <typename First, typename Second>
+    static bool prefer_second( const First& first, const Second& second ) {
+        return second.is_divisible() &&
+               ( !first.is_divisible() || first.size()*double(second.grainsize()) < second.size()*double(first.grainsize()) );
+    }
+
     template <typename Split>
     void do_split( blocked_range2d& r, Split& split_obj ) {
-        if ( my_rows.size()*double(my_cols.grainsize()) < my_cols.size()*double(my_rows.grainsize()) ) {
+        if ( prefer_second(my_rows, my_cols) ) {
             my_cols.my_begin = col_range_type::do_split(r.my_cols, split_obj);
         } else {
             my_rows.my_begin = row_range_type::do_split(r.my_rows, split_obj);
